@@ -115,6 +115,11 @@ pub fn carriers() -> Vec<(&'static str, &'static str)> {
         ("unimplemented", "o = {@+: |x| throw koto.unimplemented}\n(1, o + 1)\n"),
         ("native-callback-depth", "f = |x| (1, 2).each(|y| (3, 4).each(|z| throw 'zz').to_tuple()).to_tuple()\n'{f 1}'\n"),
         ("timeout", "x = 0\nloop\n  x += 1\n"),
+        // the limit strikes while the executing frame is not the entry frame
+        ("timeout-in-function", "f = ||\n  x = 0\n  loop\n    x += 1\ng = || [1, '{f()}']\ng()\n"),
+        ("timeout-in-generator", "g = ||\n  yield 1\n  x = 0\n  loop\n    x += 1\nfor v in g()\n  v\n"),
+        ("timeout-in-callback", "cb = |v|\n  x = 0\n  loop\n    x += 1\n(1, 2).each(cb).to_tuple()\n"),
+        ("timeout-in-overload", "o =\n  @+: |r|\n    x = 0\n    loop\n      x += 1\n[1, o + 1]\n"),
     ]
 }
 
@@ -143,8 +148,9 @@ fn gen_history(s: &mut Src, allow_timeout: bool) -> Vec<Op> {
             0 => Op::RunOk(k as i64 + 1),
             1 => {
                 let mut c = s.below(ncar) as usize;
-                if carriers()[c].0 == "timeout" && !(allow_timeout && s.below(4) == 0) {
-                    c = s.below(ncar - 1) as usize;
+                if carriers()[c].0.starts_with("timeout") && !(allow_timeout && s.below(2) == 0) {
+                    // (the timeout carriers are the last five of the table)
+                    c = s.below(ncar - 5) as usize;
                 }
                 Op::RunFail(c, k as i64 + 1)
             }
@@ -236,7 +242,7 @@ pub struct Instance {
     pub dir: PathBuf,
 }
 
-fn write_modules(dir: &PathBuf) {
+pub fn write_modules(dir: &PathBuf) {
     let _ = std::fs::create_dir_all(dir);
     let w = |n: &str, t: &str| {
         let _ = std::fs::write(dir.join(n), t);
@@ -579,7 +585,7 @@ fn run_shard(ctx: &mut Ctx) {
             if !ctx.mine(idx) {
                 continue;
             }
-            let limit = if carriers()[c].0 == "timeout" { Some(40) } else { None };
+            let limit = if carriers()[c].0.starts_with("timeout") { Some(40) } else { None };
             if limit.is_some() && ctx.quick() && !matches!(f, Op::RunOk(_)) {
                 continue;
             }
